@@ -19,7 +19,7 @@ RULE = ("random factor pairs over a 6-variable universe (scopes disjoint/nested/
         "normalize/scalars/get_value/set_value/assignment/identity/factor_product/factor_sum_product/==/hash "
         "in-place and out-of-place, with operand snapshots before/after and after mutating the result; 'perm' cases "
         "run every axis permutation of both operands (<=4 variables); 'eq' cases probe == just inside/outside "
-        "atol+rtol|b| and under axis/state permutations; 'err' cases the rejection paths; numpy and torch backends. "
+        "atol+rtol|b| and under axis/state permutations; 'err' cases the rejection paths; 'fset' cases FactorSet product/divide/marginalize (in place and out of place), factorset_product/factorset_divide, copy, the copying constructor, and FactorDict const*, +number, +, -, dot, product on sets of pairwise distinct factors, compared with a Python brute force over named assignments (a FactorSet is the multiset of its factors; not modelled in Coq beyond the store-model purity theorem), with operand snapshots, `is`-sharing checks and mutation of the result (in-place marginalize, values += 1, field rebinding on every member factor); numpy and torch backends. "
         "Each op is compared literally with the model (variable order, cardinalities, shape, flat table, state-name "
         "dict) and with the brute-force named-assignment definition.  Non-trivial: at least one operand with >= 2 "
         "variables of unequal cardinality or a permuted state list; distinct = distinct canonical case content")
@@ -147,6 +147,7 @@ def cases(tier, seed):
     out = []
     npair, nperm, neq, nerr = (420, 40, 160, 60) if tier == "quick" else (4200, 400, 1600, 300)
     nalign = 80 if tier == "quick" else 800
+    nfset = 120 if tier == "quick" else 1200
     for i in range(npair):
         U = gen_universe(rng)
         rel, fv, gv = gen_scopes(rng)
@@ -184,6 +185,23 @@ def cases(tier, seed):
         fv = rng.sample(range(6), rng.randint(0, 4))
         out.append({"kind": "eq", "backend": "torch" if i % 5 == 4 else "numpy", "U": U,
                     "f": gen_factor(rng, U, fv, zeros=0.15), "qseed": rng.randint(0, 10**9)})
+    # FactorSet / FactorDict stream: two or three factor sets of pairwise distinct factors
+    for i in range(nfset):
+        U = gen_universe(rng)
+        sets, seen = [], set()
+        for _ in range(3):
+            fs = []
+            for _ in range(rng.randint(1, 3)):
+                for _try in range(20):
+                    F = gen_factor(rng, U, rng.sample(range(6), rng.randint(1, 3)), zeros=0.3)
+                    key = (tuple(sorted(F["vars"])),)
+                    if key not in seen:       # distinct scopes => distinct factors (python sets collapse equal ones)
+                        seen.add(key)
+                        fs.append(F)
+                        break
+            sets.append(fs)
+        out.append({"kind": "fset", "backend": "torch" if i % 5 == 4 else "numpy", "U": U, "sets": sets,
+                    "qseed": rng.randint(0, 10**9)})
     for i in range(nerr):
         U = gen_universe(rng)
         fv = rng.sample(range(6), rng.randint(1, 3))
@@ -971,6 +989,215 @@ def run_err(case, drv):
     return ok(nontrivial=True, key=common.canon_key(["err", U, F]), tags=ctx.tags + ["error-paths"], note="%d ops" % ctx.nops)
 
 
+# ------------------------------------------------------------------ FactorSet / FactorDict
+def fs_snapshot(fs):
+    return sorted(repr(snapshot(phi)) for phi in fs.factors)
+
+
+def fs_match(U, fs_factors, specs):
+    """multiset comparison of the factors of a FactorSet with brute-force named tables"""
+    got = [impl_canon(U, phi) for phi in fs_factors]
+    if len(got) != len(specs):
+        return {"what": "number of factors", "impl": len(got), "spec": len(specs)}
+    used = set()
+    for sp in specs:
+        hit = None
+        for j, g in enumerate(got):
+            if j in used or set(g) != set(sp):
+                continue
+            if all(same_val(g[k], x) for k, x in sp.items()):
+                hit = j
+                break
+        if hit is None:
+            return {"what": "no factor with this table", "spec": sorted((sorted(k), str(x)) for k, x in sp.items())[:6]}
+        used.add(hit)
+    return None
+
+
+def fs_shares(r, operands):
+    """a DiscreteFactor object (or one of its mutable fields) of r that is also reachable from an operand"""
+    for o in operands:
+        for x in r.factors:
+            for y in o.factors:
+                if x is y or x.values is y.values or x.variables is y.variables or x.cardinality is y.cardinality \
+                        or x.state_names is y.state_names:
+                    return True
+    return False
+
+
+def fs_mutate(r, var_names):
+    """mutate a FactorSet through everything the public API offers"""
+    try:
+        r.marginalize(var_names[:1], inplace=True)
+    except Exception:
+        pass
+    for phi in list(r.get_factors()):
+        phi.values += 1
+        if len(phi.variables) > 0:
+            phi.values[tuple([0] * len(phi.variables))] = 321.0
+            phi.cardinality[0] = 55
+            phi.state_names[phi.variables[0]] = ["zz"]
+        phi.variables.append("__extra__")
+
+
+def run_fset(case, drv):
+    from pgmpy.factors import FactorSet, factorset_product, factorset_divide
+    U = case["U"]
+    rng = random.Random(case["qseed"])
+    A, B, C = case["sets"]
+    tags = ["fset", "backend=" + case["backend"]]
+    nops = [0]
+    N = lambda v: vname(U["vstyle"], v)
+    allvars = sorted({v for fs in case["sets"] for F in fs for v in F["vars"]})
+
+    def mkset(specs):
+        return FactorSet(*[build(U, F) for F in specs])
+
+    def spec_inv(F):
+        return {k: xdiv(Fr(1), x) for k, x in spec_table(U, F).items()}
+
+    def spec_marg(F, X):
+        t = spec_table(U, F)
+        keep = [v for v in F["vars"] if v not in X]
+        out = {}
+        for k, x in t.items():
+            kk = restrict(k, keep)
+            out[kk] = out.get(kk, 0) + x
+        return out
+
+    def check(name, operands_specs, call, spec_tables, inplace_target=None, dedupe=True):
+        """operands_specs: list of spec lists; call(objs) -> result FactorSet (or None when in place on objs[0])"""
+        objs = [mkset(sp) for sp in operands_specs]
+        snaps = [fs_snapshot(o) for o in objs]
+        r = call(objs)
+        nops[0] += 1
+        tags.append("op=FactorSet." + name)
+        if inplace_target is not None:
+            r = objs[0]
+            rest, rest_snaps = objs[1:], snaps[1:]
+        else:
+            rest, rest_snaps = objs, snaps
+            if r is None:
+                return bad("impl!=spec:FactorSet.%s:returned-None" % name, {})
+        # a FactorSet is a Python set: members that are equal (same scope, same table) collapse into one (D2 family,
+        # recorded elsewhere); the brute force therefore de-duplicates exactly equal tables
+        uniq = []
+        for t in spec_tables:
+            if not dedupe or t not in uniq:
+                uniq.append(t)
+        if len(uniq) != len(spec_tables):
+            tags.append("equal-member-factors-collapse")
+        d = fs_match(U, r.factors, uniq)
+        if d:
+            return bad("impl!=spec:FactorSet.%s" % name, {"diff": d, "sets": operands_specs})
+        if [fs_snapshot(o) for o in rest] != rest_snaps:
+            return bad("operand-mutated:FactorSet.%s" % name, {"sets": operands_specs})
+        if fs_shares(r, rest):
+            return bad("result-aliases-operand:FactorSet.%s" % name, {"sets": operands_specs})
+        fs_mutate(r, [N(v) for v in allvars])
+        if [fs_snapshot(o) for o in rest] != rest_snaps:
+            return bad("operand-mutated-via-result:FactorSet.%s" % name, {"sets": operands_specs})
+        return None
+
+    tA = [spec_table(U, F) for F in A]
+    tB = [spec_table(U, F) for F in B]
+    tC = [spec_table(U, F) for F in C]
+    iB = [spec_inv(F) for F in B]
+    b = check("product", [A, B], lambda o: o[0].product(o[1], inplace=False), tA + tB)
+    if b:
+        return b
+    b = check("product-inplace", [A, B], lambda o: o[0].product(o[1], inplace=True), tA + tB, inplace_target=0)
+    if b:
+        return b
+    b = check("factorset_product", [A, B, C], lambda o: factorset_product(*o), tA + tB + tC)
+    if b:
+        return b
+    b = check("divide", [A, B], lambda o: o[0].divide(o[1], inplace=False), tA + iB)
+    if b:
+        return b
+    b = check("divide-inplace", [A, B], lambda o: o[0].divide(o[1], inplace=True), tA + iB, inplace_target=0)
+    if b:
+        return b
+    b = check("factorset_divide", [A, B], lambda o: factorset_divide(o[0], o[1]), tA + iB)
+    if b:
+        return b
+    for _ in range(2):
+        X = rng.sample(allvars, rng.randint(1, min(3, len(allvars))))
+        Xn = [N(v) for v in X]
+        tm = [spec_marg(F, X) for F in A]
+        b = check("marginalize", [A], lambda o: o[0].marginalize(list(Xn), inplace=False), tm)
+        if b:
+            return b
+        b = check("marginalize-inplace", [A], lambda o: o[0].marginalize(list(Xn), inplace=True), tm, inplace_target=0, dedupe=False)  # members mutated in place: no re-insertion
+        if b:
+            return b
+    b = check("copy", [A], lambda o: o[0].copy(), tA)
+    if b:
+        return b
+    # constructor copies its arguments
+    fobjs = [build(U, F) for F in A]
+    fsn = [snapshot(x) for x in fobjs]
+    s0 = FactorSet(*fobjs)
+    if any(x is y for x in s0.factors for y in fobjs):
+        return bad("result-aliases-operand:FactorSet.__init__", {})
+    fs_mutate(s0, [N(v) for v in allvars])
+    if [snapshot(x) for x in fobjs] != fsn:
+        return bad("operand-mutated-via-result:FactorSet.__init__", {})
+    # ---- FactorDict: const * fd, fd + number, fd + fd, fd - fd, dot, product (numpy only: its arithmetic is numpy's)
+    if case["backend"] == "numpy":
+        from pgmpy.factors import FactorDict
+        keys = [tuple(N(v) for v in F["vars"]) for F in A]
+        A2 = [gen_factor(rng, U, F["vars"]) for F in A]
+        mk = lambda specs: FactorDict({k: build(U, F) for k, F in zip(keys, specs)})
+        c = rng.choice([2, -3, 0.5])
+        tA2 = [spec_table(U, F) for F in A2]
+        fd_ops = [
+            ("mul-const", lambda x, y: c * x, [{k: v * Fr(c) for k, v in t.items()} for t in tA]),
+            ("add-number", lambda x, y: x + c, [{k: v + Fr(c) for k, v in t.items()} for t in tA]),
+            ("add", lambda x, y: x + y, [{k: t[k] + t2[k] for k in t} for t, t2 in zip(tA, tA2)]),
+            ("sub", lambda x, y: x - y, [{k: t[k] - t2[k] for k in t} for t, t2 in zip(tA, tA2)]),
+        ]
+        for name, call, spec in fd_ops:
+            x, y = mk(A), mk(A2)
+            sx = [snapshot(v) for v in x.values()] + [snapshot(v) for v in y.values()]
+            r = call(x, y)
+            nops[0] += 1
+            tags.append("op=FactorDict." + name)
+            d = fs_match(U, [r[k] for k in keys], spec) or (None if list(r.keys()) == keys else {"what": "keys"})
+            if d:
+                return bad("impl!=spec:FactorDict.%s" % name, {"diff": d})
+            for phi in r.values():
+                if any(phi is o or phi.values is o.values for o in list(x.values()) + list(y.values())):
+                    return bad("result-aliases-operand:FactorDict.%s" % name, {})
+                phi.values += 1
+            if [snapshot(v) for v in x.values()] + [snapshot(v) for v in y.values()] != sx:
+                return bad("operand-mutated-via-result:FactorDict.%s" % name, {})
+        x, y = mk(A), mk(A2)
+        dot = x.dot(y)
+        exp = sum(sum(t[k] * t2[k] for k in t) for t, t2 in zip(tA, tA2))
+        if not common.approx(float(dot), exp):
+            return bad("impl!=spec:FactorDict.dot", {"impl": float(dot), "spec": str(exp)})
+        pr = x.product()
+        union = []
+        for F in A:
+            union += [v for v in F["vars"] if v not in union]
+        spec = {}
+        for k in all_named(U, union):
+            v_ = Fr(1)
+            for F, t in zip(A, tA):
+                v_ *= t[restrict(k, F["vars"])]
+            spec[k] = v_
+        d = cmp_spec(U, pr, spec)
+        if d:
+            return bad("impl!=spec:FactorDict.product", {"diff": d})
+        if set(map(id, x.get_factors())) != set(map(id, x.values())):
+            return bad("impl!=spec:FactorDict.get_factors", {})
+        nops[0] += 3
+        tags += ["op=FactorDict.dot", "op=FactorDict.product"]
+    return ok(nontrivial=len(A) + len(B) >= 3, key=common.canon_key(["fset", U, case["sets"], case["backend"]]), tags=tags,
+              note="%d ops" % nops[0])
+
+
 def run_case(case, drv):
     from pgmpy import config
     backend = case.get("backend", "numpy")
@@ -983,6 +1210,8 @@ def run_case(case, drv):
             return run_perm(case, drv)
         if case["kind"] == "eq":
             return run_eq(case, drv)
+        if case["kind"] == "fset":
+            return run_fset(case, drv)
         return run_err(case, drv)
     finally:
         if backend == "torch":
